@@ -319,7 +319,16 @@ func encodeStream(h *history, id int, cs []spec.Cmd) ([]byte, bool) {
 			simrt.Count(cSpareCap)
 		}
 		b = append([]byte(nil), b...) // (private copy: the result may share memory with the value)
-		if b2, err2 := mc.MarshalBinary(); err2 != nil || !bytes.Equal(b, b2) {
+		inv2 := simrt.Tick()
+		b2, err2 := mc.MarshalBinary()
+		ret2 := simrt.Tick()
+		if err2 != nil && c.CID >= 0x80 {
+			// (an encoder that consults the registry may refuse the second time
+			// if a registration landed in between: judged against the history)
+			h.refusals[id] = append(h.refusals[id], encRefusal{inv2, ret2, c.Up, c.CID, len(c.Raw), err2.Error()})
+			return nil, false
+		}
+		if err2 != nil || !bytes.Equal(b, b2) {
 			simrt.Report(fmt.Sprintf("r5.lossy:%s:second-encoding", cmdName(c)), fmt.Sprintf("command %v encodes to %x, and encoded again to %x (err %v)", c, b, b2, err2))
 			return nil, false
 		}
@@ -544,7 +553,18 @@ func frameRoundTrip(h *history, id int, r *sim.Rand, up bool) {
 			// attribute the refusal to the command that is refused on its own, if any
 			all := append(append([]spec.Cmd(nil), f.FOpts...), f.FRMCmds...)
 			if _, ok := encodeStream(h, id, all); ok {
-				simrt.Report("pipe.marshal", fmt.Sprintf("frame with spec-valid MAC commands %v refused although each command encodes: %v", f, err))
+				// (is it the commands, or something about the frame itself? the
+				// same frame without its commands decides)
+				bare := f
+				bare.FOpts, bare.FRMCmds = nil, nil
+				if bare.HasPort && bare.FPort == 0 {
+					bare.HasPort = false
+				}
+				if _, berr := bare.ToLib().MarshalBinary(); berr != nil {
+					simrt.Count(cNotJudged)
+				} else {
+					simrt.Report("pipe.marshal", fmt.Sprintf("frame with spec-valid MAC commands %v refused although each command encodes and the same frame without commands is taken: %v", f, err))
+				}
 			}
 		} else {
 			simrt.Count(cNotJudged)
@@ -585,7 +605,11 @@ func frameRoundTrip(h *history, id int, r *sim.Rand, up bool) {
 	if len(f.FOpts) > 0 {
 		stream, okS := rawOf(mp.FHDR.FOpts)
 		if !okS {
-			simrt.Report("pipe.shape", fmt.Sprintf("frame with FOpts %v decodes without an undecoded FOpts payload: %s", f.FOpts, sim.DeepSig(mp.FHDR.FOpts)))
+			if len(mp.FHDR.FOpts) == 0 {
+				simrt.Report("r2.framing:frame.FOpts", fmt.Sprintf("frame sent with FOpts %v decodes without any FOpts", f.FOpts))
+			} else {
+				simrt.Count(cNotJudged) // another representation of undecoded FOpts than one raw payload: not judged
+			}
 			return
 		}
 		op := decOp{up: up, stream: stream, where: "frame.FOpts", truth: f.FOpts}
@@ -602,7 +626,11 @@ func frameRoundTrip(h *history, id int, r *sim.Rand, up bool) {
 	if f.HasPort && f.FPort == 0 && len(f.FRMCmds) > 0 {
 		stream, okS := rawOf(mp.FRMPayload)
 		if !okS {
-			simrt.Report("pipe.shape", fmt.Sprintf("frame with port-0 commands %v decodes without an undecoded FRMPayload: %s", f.FRMCmds, sim.DeepSig(mp.FRMPayload)))
+			if len(mp.FRMPayload) == 0 {
+				simrt.Report("r2.framing:frame.FRMPayload", fmt.Sprintf("frame sent with port-0 commands %v decodes without any FRMPayload", f.FRMCmds))
+			} else {
+				simrt.Count(cNotJudged)
+			}
 			return
 		}
 		op := decOp{up: up, stream: stream, where: "frame.FRMPayload", truth: f.FRMCmds}
@@ -654,6 +682,8 @@ func resolution(r *sim.Rand) {
 		ns = 999999999 - int64(r.Intn(4000000)) // just below the next second
 	case 1:
 		ns = int64(r.Intn(256))*3906250 + int64(r.Intn(3906250))
+	case 2:
+		ns = int64(r.Intn(256)) * 3906250 // exactly on the wire's raster
 	default:
 		ns = int64(r.Intn(1000000000))
 	}
@@ -662,6 +692,12 @@ func resolution(r *sim.Rand) {
 	b, err := mc.MarshalBinary()
 	simrt.Count(cResolution)
 	if err != nil {
+		if ns%3906250 != 0 {
+			// an encoder may refuse what the 1/256 s field cannot carry exactly
+			// instead of rounding it (lossless-or-error): counted
+			simrt.Count(cNotJudged)
+			return
+		}
 		simrt.Report("r5.rejected-valid:DeviceTimeAns", fmt.Sprintf("in-range duration %v refused: %v", d, err))
 		return
 	}
@@ -877,10 +913,18 @@ var regModel = porcupine.Model{
 				// no-op, but never a change
 				return true, st
 			}
-			if in.size == 0 {
-				return !o.err, st
+			// whether a registry takes a given size is not in the statement (one
+			// that refuses sizes no frame can carry, or size 0, conforms): a
+			// refused registration changes nothing, an accepted one sets the size
+			if o.err || in.size == 0 {
+				return true, st
 			}
-			return !o.err, in.size
+			return true, in.size
+		}
+		if in.cid < 0x80 && initialSize(in.up, in.cid) < 0 && spec.Desc(in.up, in.cid) == nil {
+			// a CID this harness has no description of (a library may define
+			// commands the table does not know): not judged
+			return true, st
 		}
 		if st < 0 {
 			// not registered: "unknown", or a payload-less entry
@@ -930,7 +974,7 @@ func check(h *history) {
 		for _, e := range rs {
 			ps := possibleSizes(h, e.up, e.cid, e.inv, e.ret)
 			other := possibleSizes(h, !e.up, e.cid, e.inv, e.ret)
-			if len(ps) == 1 && ps[0] == e.n && len(other) == 1 && (other[0] == e.n || other[0] == 0) {
+			if len(ps) == 1 && ps[0] == e.n && e.n > 0 && len(other) == 1 && (other[0] == e.n || other[0] == 0) {
 				simrt.Report("r5.rejected-valid:Proprietary", fmt.Sprintf("proprietary command 0x%02x (up=%v) with %d payload bytes refused (%s) although the registry held exactly that size for this direction during the call", e.cid, e.up, e.n, e.msg))
 			} else {
 				simrt.Count(cNotJudged)
@@ -1031,6 +1075,34 @@ func canTruncate(h *history, d decOp) bool {
 	return false
 }
 
+// framedAsGenerated: the stream, framed with sizes the registry held during
+// the decode, can be read the way it was generated (it is a sequence of
+// commands for this decode). After a registration that re-frames it the rest
+// is arbitrary bytes, and a decoder that validates payloads may refuse them.
+func framedAsGenerated(h *history, d decOp) bool {
+	if d.truth == nil {
+		return false
+	}
+	i := 0
+	for _, c := range d.truth {
+		if i >= len(d.stream) || d.stream[i] != c.CID {
+			return false
+		}
+		n := spec.WireSize(c) - 1
+		ok := false
+		for _, sz := range possibleSizes(h, d.up, c.CID, d.inv, d.ret) {
+			if sz == n {
+				ok = true
+			}
+		}
+		if !ok {
+			return false
+		}
+		i += 1 + n
+	}
+	return i == len(d.stream)
+}
+
 // hasUnknownCID: some complete framing of the stream contains a CID that is
 // neither a standard command of that direction nor registered: a decoder may
 // report such a stream (it is not a sequence of commands).
@@ -1046,7 +1118,7 @@ func hasUnknownCID(h *history, d decOp) bool {
 		known := spec.Desc(d.up, cid) != nil
 		if !known {
 			for _, r := range h.regs {
-				if r.up == d.up && r.cid == cid && r.cid >= 0x80 && r.size != 0 && !r.err && r.inv < d.ret {
+				if r.up == d.up && r.cid == cid && r.cid >= 0x80 && r.size != 0 && !r.err && r.ret < d.inv {
 					known = true
 				}
 			}
@@ -1073,7 +1145,7 @@ func checkDecode(h *history, d decOp) bool {
 	sig := "r2.framing:" + d.where
 	if d.err {
 		simrt.Count(cDecodeErr)
-		if !canTruncate(h, d) && !hasUnknownCID(h, d) {
+		if !canTruncate(h, d) && !hasUnknownCID(h, d) && framedAsGenerated(h, d) {
 			simrt.Report(sig, fmt.Sprintf("decoder reported an error for stream %x (up=%v) although every registered size frames it completely", d.stream, d.up))
 		}
 		return inflight
@@ -1084,6 +1156,11 @@ func checkDecode(h *history, d decOp) bool {
 	for k, c := range d.cmds {
 		if aligned && (k >= len(d.truth) || d.truth[k].CID != c.cid) {
 			aligned = false
+		}
+		if c.cid < 0x80 && spec.Desc(d.up, c.cid) == nil && c.hasPl {
+			// a command this harness has no description of: the rest of the stream is not judged
+			simrt.Count(cNotJudged)
+			return inflight
 		}
 		if !c.typeOK {
 			simrt.Report(sig, fmt.Sprintf("stream %x (up=%v): decoded element %d has an unexpected Go type", d.stream, d.up, k))
@@ -1160,7 +1237,12 @@ func checkDecode(h *history, d decOp) bool {
 		}
 		i += 1 + n
 	}
-	if i != len(d.stream) {
+	if i != len(d.stream) && canTruncate(h, d) {
+		// a stream that ends inside a command (cut, or re-framed by a
+		// registration) is not a sequence of commands: a decoder may report it
+		// or hand back the complete commands in front of the partial one
+		simrt.Count(cNotJudged)
+	} else if i != len(d.stream) {
 		simrt.Report(sig, fmt.Sprintf("stream %x (up=%v): decoder consumed %d of %d bytes (%d commands)", d.stream, d.up, i, len(d.stream), len(d.cmds)))
 	}
 	return inflight
